@@ -239,6 +239,20 @@ CloseLatched == (mon.err = "closesent") => (err = "closesent" /\ \A t \in Thread
 WCBounded == \A t \in {"K1", "K2"} : (pc[t] = "Q" /\ DL(t) # "zero") => ENABLED Timeout(t)
 WCReturns == \A t \in {"K1", "K2"} : (More(t) /\ Cur(t).dl # "zero") ~> ~More(t)
 
+(***************************************************************************)
+(* Refinement: the lock protocol model implements the distilled core       *)
+(* WSLockCore (whose inductive invariant is proved with TLAPS for any      *)
+(* number of threads and checked with Apalache, spec/proof).  "Q" (blocked *)
+(* on the lock) and every state outside the critical section map to "L";   *)
+(* wroteAfterClose is mapped to FALSE, so a write after a close frame      *)
+(* would not be a step of the core.                                        *)
+(***************************************************************************)
+Core == INSTANCE WSLockCore WITH
+          Threads <- Threads, lock <- lock,
+          pc <- [t \in Threads |-> IF pc[t] \in {"A", "S", "T"} THEN pc[t] ELSE "L"],
+          sticky <- (err # "none"), closeOnWire <- (err = "closesent"), wroteAfterClose <- FALSE
+RefinesCore == Core!Spec
+
 (* schedules for replay: printed for complete behaviours *)
 EmitSched == AllDone => PrintT(<< "PROG", ToJson([role |-> Role, progs |-> progs, sched |-> sched, faultAt |-> faultAt]) >>)
 =============================================================================
